@@ -223,10 +223,11 @@ PROPS["C09"] = {
     "groups": [
         {"dir": "light",
          "quick": ["VP_C09_Verify_adjacent", "VP_C09_Verify_nonadjacent", "VP_C09_TrustingAdversarial_m4_n3", "VP_C09_TrustingAdversarial_m7_n3",
-                   "VP_C09_Detector_w1", "VP_C09_Detector_w2", "VP_C09_Detector_w3", "VP_C09_Backwards"],
+                   "VP_C09_Detector_w1", "VP_C09_Detector_w2", "VP_C09_Detector_w3", "VP_C09_Backwards", "VP_C09_ForwardFaultyPrimary"],
          "thorough": ["VP_C09_TrustingAdversarial_m7_n4"]},
     ],
     "bounds": {
+        "forward with a faulty primary (H4)": "real Client.VerifyLightBlockAtHeight in skipping mode from trusted height 1 to height 3 across a complete validator-set replacement (pivot 2 needed); the primary's first three answers each genuine / forged (well-formed, signed by a made-up set) / future-dated / no response; two honest witnesses; what is returned and what enters the trusted store must be the genuine blocks",
         "verifier (H1)": "light.Verify on really signed headers of a 3-validator chain: trusted header at height 2, new header adjacent or two heights later, its time one of {before, equal, +1 s, +50 s} relative to the trusted one, `now` symbolic over 600 s, trusting period 100/300 s, clock drift 0/10 s, new validator set equal to / sharing 2 / sharing 1 member with the trusted set, one perturbation (chain id, validators hash, exactly-2/3 commit, 1/3 commit, height not later) or none: accepted exactly when the rule of the statement holds",
         "adversarial trusting step": "trusted set of m = 4/7 equal validators, forged light block whose validator list is any n = 3 (thorough 4) entries from the trusted members or strangers (repetitions included), all genuinely signing: accepted only with more than 1/3 of *distinct* trusted members",
         "detector (H3)": "detectDivergence with w = 1..3 witnesses, each answering {identical block, a different block it cannot back, no response, not found, malformed}, under every goroutine schedule: confirmation only with an identical header; no goroutine left blocked",
